@@ -49,6 +49,15 @@ SPEC (a dict; everything the source does not say itself)
   maybe_attrs  places of type `Option T` that stand for attributes which may not exist yet: a read is AttributeError on `none`
   pairdicts {place: default literal}: a dict keyed by a bool that is only read through `.get(k, default)`: the pair of
             its values at False / True (absent = default)
+  list_truth   True: `if xs:` on a list is `len(xs) != 0`
+  setattr_names  {name expression: attribute}: `setattr(obj, <name>, v)` with a literal name or one of these is `obj.<attribute> = v`
+  absent_or_none  places `ns.a : Option T` whose `none` stands for "attribute absent, or None": `if 'a' not in ns or ns.a is None: …; return`
+               narrows the place to the value in what follows
+  stmt_rewrites  {statement text: python statements}: a call into a library outside the subset (dpkt), stated as assignments from
+               `calls` externals — what the library does is then a parameter of the theorem, the glue around it is translated
+  raise_as     {exception expression: PyRt.Err constructor}: `raise X`
+  externals named `py_int` / `str_lower`: `int(s)` of a str (`Option Int`, none = ValueError; also `[int(x) for x in strs]`) and `s.lower()`
+  `[x for x in xs if c]` (c cannot raise) is `List.filter`
 types: Int, Nat (an int known to be ≥ 0), Bool, Bytes, List T, Set T (a Python set; only `in` and `|` under `in`),
        Option T, Dict K V, anything else = an opaque type with decidable equality (only == != and assignment).
 """
